@@ -227,6 +227,7 @@ def main(tier, seed, replay):
         if verdict == "inconclusive":
             inconc.append(f"{sc.name}: {V[0]}")
         elif V:
+            sc.observed = getattr(tr, "raw", "")
             hard.append((sc, V))
         if C.get("timer_evaluations", 0) >= 3 or C.get("stops_while_waiting"):
             nontriv.add(sig_hash(sc.text()))
@@ -263,7 +264,8 @@ def main(tier, seed, replay):
         os.makedirs(os.path.join(REPLAYS, PROPERTY), exist_ok=True)
         for sc, V in hard[:5]:
             path = os.path.join(REPLAYS, PROPERTY, f"{sc.name}.json")
-            json.dump({"property": PROPERTY, "scenario": {"name": sc.name, "kv": sc.kv}, "violation": {"what": V[0], "all": V[:10]}}, open(path, "w"), indent=1)
+            json.dump({"property": PROPERTY, "scenario": {"name": sc.name, "kv": sc.kv}, "violation": {"what": V[0], "all": V[:10]},
+                       "observed_trace": getattr(sc, "observed", "").splitlines()}, open(path, "w"), indent=1)
             print(f"VIOLATION property={PROPERTY} replay={path}")
             for m in V[:3]:
                 print(f"  {m}")
